@@ -343,6 +343,11 @@ def orPanic {ε : Type} : Option Bytes → Res ε
   | some b => .ok b
   | none => .panic
 
+/-- `Option` from a primitive whose failure is mapped to the error "Invalid input". -/
+def orInvalid : Option Bytes → Res Err
+  | some b => .ok b
+  | none => .err .invalidInput
+
 /-- `get_key_bytes` then `get_iv_bytes` (argument order of `<$algorithm>::new(&Key.., &Iv..)`). -/
 def checkSizes (a : Alg) (key iv : Bytes) : Option Err :=
   if key.length ≠ keyLen a then some (.keySize (keyLen a) key.length)
@@ -376,11 +381,12 @@ def decryptWith (P : Prims) (a : Alg) (key iv ct : Bytes) : Res Err :=
     else match unpadBlocks s (P.cbcDec k key iv ct) with
       | some p => .ok p
       | none => .err .invalidInput
-  | .siv128 => orPanic (P.aeadDec a key iv ct)
-  | .siv256 => orPanic (P.aeadDec a key iv ct)
-  | .chacha => orPanic (P.aeadDec a key iv ct)
-  | .xchacha => orPanic (P.aeadDec a key iv ct)
-  | .xsalsa => orPanic (P.aeadDec a key iv ct)
+  -- an input the AEAD does not authenticate is the error "Invalid input" (fix 2b6…: was `.expect`)
+  | .siv128 => orInvalid (P.aeadDec a key iv ct)
+  | .siv256 => orInvalid (P.aeadDec a key iv ct)
+  | .chacha => orInvalid (P.aeadDec a key iv ct)
+  | .xchacha => orInvalid (P.aeadDec a key iv ct)
+  | .xsalsa => orInvalid (P.aeadDec a key iv ct)
 
 /-- `fn encrypt(plaintext, algorithm: &str, key, iv)` (the `&str` is already upper-cased). -/
 def encrypt (P : Prims) (name key iv pt : Bytes) : Res Err :=
